@@ -674,7 +674,7 @@ func (blockID *BlockID) Equal(other BlockID) bool {
 
 // Key returns a machine-readable string representation of the BlockID
 func (blockID *BlockID) Key() string {
-	return string(blockID.Hash.String() + blockID.PartsHeader.Hash.String())
+	return fmt.Sprintf("%s%s:%d", blockID.Hash.String(), blockID.PartsHeader.Hash.String(), blockID.PartsHeader.Total)
 }
 
 // String returns the first 12 characters of hex string representation of the BlockID
